@@ -80,13 +80,19 @@ type Params struct {
 	Thaw      uint32
 	Seed      [32]byte
 	NoAmtData bool
+	// ZeroConf: the channel carries the zero-conf and scid-alias type bits
+	// (orthogonal to the commitment format). Such a channel is in use
+	// before its funding transaction confirms, so the funding manager's
+	// writes (confirmation height, real scid), made through its OWN handle
+	// of the channel record, land in the middle of the update dance.
+	ZeroConf bool
 }
 
 func (p Params) String() string {
 	return fmt.Sprintf("type=%s openerA=%v cap=%d funded=%v dust=%v "+
-		"reserve=%v csv=%v maxHtlcs=%v fee=%d noAmt=%v", p.TypeName,
+		"reserve=%v csv=%v maxHtlcs=%v fee=%d noAmt=%v zeroConf=%v", p.TypeName,
 		p.InitiatorA, p.Capacity, p.Funded, p.Dust, p.Reserve, p.Csv,
-		p.MaxHtlcs, p.FeePerKw, p.NoAmtData)
+		p.MaxHtlcs, p.FeePerKw, p.NoAmtData, p.ZeroConf)
 }
 
 // Opener returns the index (0/1) of the channel opener.
@@ -167,6 +173,12 @@ func DrawParams(t *rapid.T, types []string) Params {
 	}
 
 	copy(p.Seed[:], rapid.SliceOfN(rapid.Byte(), 32, 32).Draw(t, "seed"))
+	// Derived from the drawn seed (no draw of its own, so that the draw
+	// sequence of all other parameters and saved replays stay as they are).
+	if p.Seed[7]%3 == 0 {
+		p.ZeroConf = true
+		p.ChanType |= channeldb.ZeroConfBit | channeldb.ScidAliasChanBit
+	}
 	p.NoAmtData = rapid.IntRange(0, 2).Draw(t, "noAmtData") == 0
 
 	// Split: the opener must afford fee + anchors + reserve; pick the
